@@ -76,7 +76,7 @@ func key(n int) []byte {
 }
 
 var (
-	privKH, privWKH, privTR = key(1), key(2), key(3)
+	privKH, privWKH, privTR = key(1), key(1), key(3) // P2PKH and P2WPKH share one key hash on purpose
 	pubKH, pubWKH, pubTR    []byte
 	addrs                   []addrDef
 )
@@ -145,7 +145,13 @@ type prefixFile struct {
 func op(tx [32]byte, v uint32) refchain.Outpoint { return refchain.Outpoint{Tx: tx, Vout: v} }
 func o1(v uint64) reftx.Out                      { return reftx.Out{Value: v, Script: []byte{0x51}} }
 
-func buildPrefix() string {
+// buildPrefix builds the 105-block chain all histories of one focus start from.
+// Blocks 102/103 hold the funding transactions (anyone-can-spend outputs the
+// events spend); block 103 also pays two outputs (6000+i, 7000+i) to every address
+// of the alphabet EXCEPT the focus: a static background that every oracle
+// evaluation re-checks while the focus record changes (cross-talk between types;
+// P2PKH and P2WPKH deliberately share one key hash). Block 103 is never undone.
+func buildPrefix(focus int) string {
 	dir := ev.Scratch("c17-prefix")
 	e := minichain.Open(dir+"/chain", &minichain.Opts{Params: params})
 	prev := minichain.GenesisHash
@@ -163,6 +169,20 @@ func buildPrefix() string {
 			s.Fees = 50e8 - uint64(nFunding/2)*1e8
 			for i := range outs {
 				pf.Funding = append(pf.Funding, fmt.Sprintf("%x:%d", m.TxID(), i))
+			}
+		}
+		if h == 103 {
+			var outs []reftx.Out
+			for i, a := range addrs {
+				if i != focus {
+					outs = append(outs, reftx.Out{Value: uint64(6000 + i), Script: a.Script}, reftx.Out{Value: uint64(7000 + i), Script: a.Script})
+				}
+			}
+			outs = append(outs, o1(49e8))
+			s.Txs = append(s.Txs, minichain.Spend([]refchain.Outpoint{cb[3]}, outs))
+			s.Fees += 50e8 - 49e8
+			for _, o := range outs[:len(outs)-1] {
+				s.Fees -= o.Value
 			}
 		}
 		b := minichain.Build(s)
@@ -599,10 +619,16 @@ func (w *world) oracle(after string) {
 		panic(violation{"wallet-on-flag", fmt.Sprintf("after %s: common.WalletON=%v, expected %v", after, on, w.on)})
 	}
 	got := w.e.UTXO()
-	if _, gh := refchain.Dump(got); true {
-		if _, wh := refchain.Dump(w.m.UTXOAt(w.tip())); gh != wh {
-			hfail("after %s: node's UTXO set differs from the reference replay (C06 domain)", after)
+	want := w.m.UTXOAt(w.tip())
+	same := len(want) == len(got)
+	for o, c := range want {
+		g, ok := got[o]
+		if !ok || g.Value != c.Value || g.Height != c.Height || g.Coinbase != c.Coinbase || !bytes.Equal(g.Script, c.Script) {
+			same = false
 		}
+	}
+	if !same {
+		hfail("after %s: node's UTXO set differs from the reference replay (C06 domain)", after)
 	}
 	if !w.on {
 		return
@@ -972,7 +998,7 @@ var workerCPU int64 // nanoseconds of CPU used by finished workers
 func runWorker(job *Job) *Result {
 	in, _ := json.Marshal(job)
 	cmd := exec.Command(os.Args[0], "--worker")
-	cmd.Env = append(os.Environ(), "GOMAXPROCS=2")
+	cmd.Env = append(os.Environ(), "GOMAXPROCS=1")
 	cmd.Stdin = bytes.NewReader(in)
 	var so, se bytes.Buffer
 	cmd.Stdout, cmd.Stderr = &so, &se
@@ -1056,12 +1082,163 @@ func gocoinFrameFatal(dump string) string {
 var (
 	workerFlag = flag.Bool("worker", false, "internal: execute one history read from stdin")
 	replayFile = flag.String("replay", "", "replay one recorded history (no explorer)")
-	depthFlag  = flag.Int("depth", 0, "override the exploration depth")
+	depthFlag  = flag.Int("depth", 0, "override the depth of the deep exploration")
 )
 
 type hist struct {
 	events  []string
 	enabled []string
+}
+
+type task struct {
+	h   hist
+	ev  string
+	res *Result
+}
+
+func (t *task) events() []string {
+	evs := append([]string{}, t.h.events...)
+	if t.ev != "" {
+		evs = append(evs, t.ev)
+	}
+	return evs
+}
+
+type explorer struct {
+	r    *ev.Run
+	sem  chan struct{}
+	mu   sync.Mutex
+	pdir map[int]string
+
+	transitions, oracles, nontriv, reorgs, mapRep, confirmed, states int
+	perEvent                                                         map[string]int
+	perFocus                                                         map[string]map[string]int
+	depthDone                                                        map[string]int
+	samples                                                          *ev.Samples
+	harness                                                          []string
+}
+
+func (x *explorer) run(focus int, evs []string) *Result {
+	x.sem <- struct{}{}
+	defer func() { <-x.sem }()
+	return runWorker(&Job{Prefix: x.pdir[focus], Focus: focus, Events: evs})
+}
+
+func (x *explorer) runLevel(focus int, tasks []*task) {
+	var wg sync.WaitGroup
+	for _, t := range tasks {
+		if x.r.OverBudget() {
+			break
+		}
+		x.sem <- struct{}{}
+		wg.Add(1)
+		go func(t *task) {
+			defer wg.Done()
+			defer func() { <-x.sem }()
+			t.res = runWorker(&Job{Prefix: x.pdir[focus], Focus: focus, Events: t.events()})
+		}(t)
+	}
+	wg.Wait()
+}
+
+// bfs explores all histories of one focus address up to depth modulo the state key.
+func (x *explorer) bfs(focus, depth int) {
+	fname := addrs[focus].Name
+	r := x.r
+	seen := map[string]bool{}
+	root := &task{}
+	x.runLevel(focus, []*task{root})
+	if root.res == nil {
+		return // budget
+	}
+	if root.res.Key != "" {
+		r.Report(root.res.Key, root.res.What, map[string]interface{}{"focus": fname, "events": []string{}, "trace": root.res.Trace})
+		return
+	}
+	if root.res.Harness != "" {
+		x.mu.Lock()
+		x.harness = append(x.harness, fmt.Sprintf("%s []: %s", fname, root.res.Harness))
+		x.mu.Unlock()
+		return
+	}
+	seen[root.res.StateKey] = true
+	frontier := []hist{{nil, root.res.Enabled}}
+	pf := map[string]int{}
+	done := 0
+	for d := 1; d <= depth && len(frontier) > 0; d++ {
+		var tasks []*task
+		for _, h := range frontier {
+			for _, e := range h.enabled {
+				tasks = append(tasks, &task{h: h, ev: e})
+			}
+		}
+		x.runLevel(focus, tasks)
+		var next []hist
+		complete := true
+		for _, t := range tasks { // deterministic merge order
+			if t.res == nil {
+				complete = false // budget
+				continue
+			}
+			evs := t.events()
+			x.mu.Lock()
+			x.transitions++
+			x.perEvent[t.ev]++
+			x.oracles += t.res.Oracles
+			x.nontriv += t.res.Nontriv
+			x.reorgs += t.res.Reorgs
+			if t.res.MapRep {
+				x.mapRep++
+			}
+			x.mu.Unlock()
+			switch {
+			case t.res.Harness != "":
+				x.mu.Lock()
+				x.harness = append(x.harness, fmt.Sprintf("%s %v: %s", fname, evs, t.res.Harness))
+				x.mu.Unlock()
+			case t.res.Key != "":
+				// confirm in two more fresh processes before believing it
+				ok := true
+				for i := 0; i < 2; i++ {
+					if again := x.run(focus, evs); again.Key != t.res.Key {
+						ok = false
+					}
+				}
+				x.mu.Lock()
+				if ok {
+					x.confirmed++
+					r.Report(t.res.Key, t.res.What, map[string]interface{}{"focus": fname, "events": evs, "trace": t.res.Trace})
+				} else {
+					r.Unrepro = append(r.Unrepro, fmt.Sprintf("%s %v: %s", fname, evs, t.res.Key))
+				}
+				x.mu.Unlock()
+			default:
+				if os.Getenv("C17_DUMPSTATES") != "" {
+					fmt.Fprintf(os.Stderr, "STATE %s %v => %s\n", fname, evs, t.res.StateKey)
+				}
+				if !seen[t.res.StateKey] {
+					seen[t.res.StateKey] = true
+					next = append(next, hist{evs, t.res.Enabled})
+					if len(evs) >= 3 {
+						x.samples.Add(map[string]interface{}{"focus": fname, "events": evs, "state": t.res.StateKey})
+					}
+				}
+			}
+		}
+		if !complete {
+			break
+		}
+		done = d
+		pf[fmt.Sprint("new_states_depth_", d)] = len(next)
+		frontier = next
+	}
+	pf["states"] = len(seen)
+	pf["depth_target"] = depth
+	x.mu.Lock()
+	x.states += len(seen)
+	x.perFocus[fname] = pf
+	x.depthDone[fname] = done
+	x.mu.Unlock()
 }
 
 func main() {
@@ -1074,200 +1251,109 @@ func main() {
 	r := ev.Start("C17", "model_checking")
 	minichain.Quiet()
 	initAlphabet()
-	pdir := buildPrefix()
-	defer os.RemoveAll(pdir)
-
+	x := &explorer{r: r, sem: make(chan struct{}, runtime.NumCPU()), pdir: map[int]string{},
+		perEvent: map[string]int{}, perFocus: map[string]map[string]int{}, depthDone: map[string]int{}, samples: &ev.Samples{N: 5}}
+	cleanup := func() {
+		for _, d := range x.pdir {
+			os.RemoveAll(d)
+		}
+	}
+	for i := range addrs {
+		x.pdir[i] = buildPrefix(i)
+	}
 	if *replayFile != "" {
-		replay(pdir, *replayFile)
-		return
+		code := replay(x, *replayFile)
+		cleanup()
+		os.Exit(code)
 	}
 	if os.Getenv("C17_BENCH") != "" { // development aid: cost of one worker
-		for _, evs := range [][]string{nil, {"pay3", "pay1", "spendOldest", "reorgPay", "saveload"}} {
+		for _, evs := range [][]string{nil, {"pay3", "pay1", "spendOldest", "reorgPay", "pay2same"}} {
 			t0 := time.Now()
 			workerCPU = 0
 			for i := 0; i < 20; i++ {
-				if res := runWorker(&Job{Prefix: pdir, Focus: 4, Events: evs}); res.Harness != "" || res.Key != "" {
+				if res := x.run(3, evs); res.Harness != "" || res.Key != "" {
 					fmt.Fprintln(ev.Out, "bench:", res.Harness, res.Key, res.What)
 				}
 			}
 			fmt.Fprintf(ev.Out, "bench %v: %v wall, %v cpu per worker\n", evs, time.Since(t0)/20, time.Duration(workerCPU/20))
 		}
-		os.RemoveAll(pdir)
+		cleanup()
 		os.Exit(0)
 	}
-	depth := 5
+	// Type-symmetry reduction. The record dynamics (list/map, totals, add/del/undo) are
+	// type-agnostic code (allBalances[idx][uidx]); only Script2Idx and the dispatch in
+	// GetAllUnspent depend on the type. The deep exploration therefore runs on `deep`
+	// focus types, every other type is explored to `shallow` depth, and all other
+	// types are present as static background in every history.
+	deepDepth, shallowDepth := 5, 3
+	deep := map[string]bool{"P2WSH": true}
 	r.Budget = 150 * time.Second
 	if r.Thorough() {
-		depth = 6
+		deepDepth, shallowDepth = 6, 5
+		deep = map[string]bool{"P2WSH": true, "P2PKH": true}
 		r.Budget = 25 * time.Minute
 	}
 	if *depthFlag > 0 {
-		depth = *depthFlag
+		deepDepth = *depthFlag
 	}
-	if only := os.Getenv("C17_BUDGET"); only != "" {
-		r.Budget, _ = time.ParseDuration(only)
+	if b := os.Getenv("C17_BUDGET"); b != "" {
+		r.Budget, _ = time.ParseDuration(b)
 	}
-
-	var mu sync.Mutex
-	var transitions, oracles, nontriv, reorgs, mapRep, confirmed int
-	perEvent := map[string]int{}
-	perFocus := map[string]map[string]int{}
-	samples := &ev.Samples{N: 4}
-	totalStates := 0
-	maxDepthDone := map[string]int{}
-	var harness []string
-
-	type task struct {
-		h   hist
-		ev  string
-		res *Result
-	}
-	runLevel := func(focus int, tasks []*task) {
-		ch := make(chan *task)
-		var wg sync.WaitGroup
-		for i := 0; i < runtime.NumCPU(); i++ {
-			wg.Add(1)
-			go func() {
-				defer wg.Done()
-				for t := range ch {
-					evs := append(append([]string{}, t.h.events...), t.ev)
-					if t.ev == "" {
-						evs = evs[:len(evs)-1]
-					}
-					t.res = runWorker(&Job{Prefix: pdir, Focus: focus, Events: evs})
-				}
-			}()
-		}
-		for _, t := range tasks {
-			if r.OverBudget() {
-				break
-			}
-			ch <- t
-		}
-		close(ch)
-		wg.Wait()
-	}
-
+	var wg sync.WaitGroup
 	for focus := range addrs {
 		fname := addrs[focus].Name
 		if f := os.Getenv("C17_FOCUS"); f != "" && f != fname {
 			continue
 		}
-		seen := map[string]bool{}
-		root := &task{}
-		runLevel(focus, []*task{root})
-		if root.res == nil || root.res.Harness != "" || root.res.Key != "" {
-			if root.res != nil && root.res.Key != "" {
-				r.Report(root.res.Key, root.res.What, map[string]interface{}{"focus": fname, "events": []string{}, "trace": root.res.Trace})
-				continue
-			}
-			msg := "no result"
-			if root.res != nil {
-				msg = root.res.Harness
-			}
-			os.RemoveAll(pdir)
-			ev.HarnessError("initial state (%s): %s", fname, msg)
+		d := shallowDepth
+		if deep[fname] {
+			d = deepDepth
 		}
-		seen[root.res.StateKey] = true
-		frontier := []hist{{nil, root.res.Enabled}}
-		perFocus[fname] = map[string]int{}
-		for d := 1; d <= depth && len(frontier) > 0; d++ {
-			var tasks []*task
-			for _, h := range frontier {
-				for _, e := range h.enabled {
-					tasks = append(tasks, &task{h: h, ev: e})
-				}
-			}
-			runLevel(focus, tasks)
-			var next []hist
-			complete := true
-			for _, t := range tasks { // deterministic merge order
-				if t.res == nil {
-					complete = false // budget
-					continue
-				}
-				evs := append(append([]string{}, t.h.events...), t.ev)
-				transitions++
-				perEvent[t.ev]++
-				oracles += t.res.Oracles
-				nontriv += t.res.Nontriv
-				reorgs += t.res.Reorgs
-				if t.res.MapRep {
-					mapRep++
-				}
-				switch {
-				case t.res.Harness != "":
-					mu.Lock()
-					harness = append(harness, fmt.Sprintf("%s %v: %s", fname, evs, t.res.Harness))
-					mu.Unlock()
-				case t.res.Key != "":
-					// confirm in two more fresh processes before believing it
-					ok := true
-					for i := 0; i < 2; i++ {
-						if again := runWorker(&Job{Prefix: pdir, Focus: focus, Events: evs}); again.Key != t.res.Key {
-							ok = false
-						}
-					}
-					if ok {
-						confirmed++
-						r.Report(t.res.Key, t.res.What, map[string]interface{}{"focus": fname, "events": evs, "trace": t.res.Trace})
-					} else {
-						r.Unrepro = append(r.Unrepro, fmt.Sprintf("%s %v: %s", fname, evs, t.res.Key))
-					}
-				default:
-					if !seen[t.res.StateKey] {
-						seen[t.res.StateKey] = true
-						next = append(next, hist{evs, t.res.Enabled})
-						samples.Add(map[string]interface{}{"focus": fname, "events": evs, "state": t.res.StateKey})
-					}
-				}
-			}
-			if !complete {
-				break
-			}
-			maxDepthDone[fname] = d
-			perFocus[fname][fmt.Sprint("new_states_depth_", d)] = len(next)
-			frontier = next
-		}
-		totalStates += len(seen)
-		perFocus[fname]["states"] = len(seen)
+		wg.Add(1)
+		go func(focus, d int) {
+			defer wg.Done()
+			x.bfs(focus, d)
+		}(focus, d)
 	}
-	os.RemoveAll(pdir)
-	if len(harness) > 0 {
-		for i, h := range harness {
+	wg.Wait()
+	cleanup()
+	if len(x.harness) > 0 {
+		sort.Strings(x.harness)
+		for i, h := range x.harness {
 			if i < 5 {
 				fmt.Fprintln(os.Stderr, "HARNESS:", h)
 			}
 		}
-		ev.HarnessError("%d histories failed for infrastructure reasons; first: %s", len(harness), harness[0])
+		ev.HarnessError("%d histories failed for infrastructure reasons; first: %s", len(x.harness), x.harness[0])
 	}
 	r.Finish(map[string]interface{}{
-		"states":                        totalStates,
-		"transitions":                   transitions,
-		"traces_validated_against_impl": transitions,
-		"oracle_evaluations_index_on":   oracles,
-		"oracle_evaluations_nontrivial": nontriv,
-		"histories_with_reorg":          reorgs,
-		"histories_reaching_map_rep":    mapRep,
-		"per_event":                     perEvent,
-		"per_focus":                     perFocus,
-		"depth_target":                  depth,
-		"depth_completed":               maxDepthDone,
-		"violations_confirmed_3x":       confirmed,
+		"states":                        x.states,
+		"transitions":                   x.transitions,
+		"traces_validated_against_impl": x.transitions,
+		"oracle_evaluations_index_on":   x.oracles,
+		"oracle_evaluations_nontrivial": x.nontriv,
+		"histories_with_reorg":          x.reorgs,
+		"histories_reaching_map_rep":    x.mapRep,
+		"per_event":                     x.perEvent,
+		"per_focus":                     x.perFocus,
+		"depth_completed":               x.depthDone,
+		"violations_confirmed_3x":       x.confirmed,
 		"worker_cpu_s":                  float64(atomic.LoadInt64(&workerCPU)/1e7) / 100,
-		"samples":                       samples.L,
-		"rule": "BFS over event histories, one focus address type at a time (P2PKH, P2SH, P2WPKH, P2WSH, P2TR, non-standard); every history runs in a fresh worker process on a copy of a 105-block chain; " +
-			"oracle after every delivered block / wallet switch; state key = (index on/off, snapshot saved for tip, observed list/map representation, X's outputs in creation order with age class/tx index/vout/value, X-outputs spent by the two topmost blocks)",
+		"samples":                       x.samples.L,
+		"rule": "BFS over event histories per focus address type (P2PKH, P2SH, P2WPKH, P2WSH, P2TR, non-standard; all other types present as static background outputs); every history runs in a fresh worker process on a copy of a 105-block chain; " +
+			"oracle after every delivered block / wallet switch for every address of the alphabet; state key = (index on/off, snapshot saved for tip, observed list/map representation, X's outputs in creation order with age class/tx index/vout/value, X-outputs spent by the two topmost blocks); " +
+			"type-symmetry reduction: full depth for the deep focus types, reduced depth for the others (per_focus.depth_target)",
 	}, []string{
 		"UseMapCnt=3 (list->map at the third output), MinValue=1000 with outputs of 999/1000",
 		"spends are really valid: P2SH/P2WSH of OP_1, P2PKH/P2WPKH/P2TR signed with gocoin's own signer (signatures are not judged here); blocks are delivered untrusted through CheckBlock+AcceptBlock",
 		"the projection is computed from the decoded UnspentDB.HashMap with the harness's own script classifier; the node's UTXO set is additionally required to equal the reference replay (else harness error)",
 		"representation (list/map) is read with reflect from the unexported field unspMap; it only enters the state key",
 		"callback scheduling inside UnspentDB.commit (parallel add/del workers) is left to the Go scheduler here; its exhaustive exploration is C11 scenario S2",
+		"8-byte txid-prefix collisions in the UTXO key are outside the alphabet",
 	})
 }
 
-func replay(pdir, file string) {
+func replay(x *explorer, file string) int {
 	b, err := os.ReadFile(file)
 	if err != nil {
 		ev.HarnessError("%v", err)
@@ -1290,19 +1376,18 @@ func replay(pdir, file string) {
 	if focus < 0 {
 		ev.HarnessError("unknown focus %q", rec.Replay.Focus)
 	}
-	res := runWorker(&Job{Prefix: pdir, Focus: focus, Events: rec.Replay.Events})
-	os.RemoveAll(pdir)
+	res := x.run(focus, rec.Replay.Events)
 	for _, s := range res.Trace {
 		fmt.Fprintf(ev.Out, "  %s -> %s\n", s.Ev, s.Result)
 	}
 	switch {
 	case res.Harness != "":
 		fmt.Fprintln(ev.Out, "replay: harness error:", res.Harness)
-		os.Exit(2)
+		return 2
 	case res.Key != "":
 		fmt.Fprintf(ev.Out, "replay: %s: %s\n", res.Key, res.What)
-		os.Exit(1)
+		return 1
 	}
 	fmt.Fprintln(ev.Out, "replay: history passes; final state", res.StateKey)
-	os.Exit(0)
+	return 0
 }
